@@ -54,11 +54,11 @@ type c25Op struct {
 }
 
 func TestVerifC25Mock(t *testing.T) {
-	c25Run(t, "C25-blocklist-mockstore", false, mc.EnvInt("VERIF_C25_DEPTH", mc.Pick(7, 10)))
+	c25Run(t, "C25-blocklist-mockstore", false, mc.EnvInt("VERIF_C25_DEPTH", mc.Pick(7, 12)))
 }
 
 func TestVerifC25Leveldb(t *testing.T) {
-	c25Run(t, "C25-blocklist-leveldbstore", true, mc.EnvInt("VERIF_C25_LDB_DEPTH", mc.Pick(4, 6)))
+	c25Run(t, "C25-blocklist-leveldbstore", true, mc.EnvInt("VERIF_C25_LDB_DEPTH", mc.Pick(5, 8)))
 }
 
 func c25Run(t *testing.T, harness string, useLeveldb bool, depth int) {
